@@ -1,58 +1,30 @@
-/* C12: LRUSet<int> vs a reference recency list under every history of K operations.
- * K = number of operations (concrete cell), everything else symbolic: operation, target instance (two instances, so that
- * swap is meaningful), key in {0..NKEYS-1}, size in {0,1,2}.
+/* C12: LRUSet<int> vs a reference recency list under every history of K operations starting from two fresh instances.
+ * Concrete per cell: K = number of operations, WHICH = bit i selects the instance operation i is applied to (a symbolic
+ * choice between the two objects makes every access a two-way pointer case split, measured 70x slower).
+ * Symbolic: every operation (11 kinds incl. swap with the other instance), key in {0..NKEYS-1}, size in {0,1,2}.
  * After every step: return value, size() and count() of BOTH instances equal the reference; at the end both instances
  * are drained with evict_object and the eviction order (key,size) equals the reference order, followed by out_of_range.
- * Options: NODRAIN  = instances are destroyed while populated (used with --memory-leak-check)
- *          NOTHROW  = peek/evict_object on an empty instance are excluded (the engine's exception model never frees the
- *                     exception object, which would be reported by --memory-leak-check)
- * WHICH = bit i selects the instance operation i is applied to (concrete per cell: a symbolic choice between the two
- *         objects makes every access a two-way pointer case split, measured 70x slower) */
-#include "harness.h"
+ * Options: NODRAIN  = instances are destroyed while still populated (used with --memory-leak-check)
+ *          NOTHROW  = scripts in which an exception is thrown (peek/evict/at on nothing, touch/change_size of a missing key,
+ *                     which throw and catch internally) are excluded: the engine's exception model never frees the
+ *                     exception object, which --memory-leak-check would report as a leak of the model */
+#include "lru_ref.h"
 #ifndef WHICH
 #define WHICH 0
-#endif
-#ifndef NKEYS
-#define NKEYS 3
 #endif
 #define DRAIN_MAX NKEYS
 int64_t w_lruset_history(uint8_t* op, uint8_t* which, uint8_t* key, uint8_t* sz, uint64_t n, int64_t* out, int64_t* drain, uint64_t drain_max);
 int64_t w_lruset_history_nodrain(uint8_t* op, uint8_t* which, uint8_t* key, uint8_t* sz, uint64_t n, int64_t* out);
 
-enum { S_INSERT = 0, S_EMPLACE, S_ERASE, S_TOUCH, S_TOUCH_SIZE, S_CHANGE_SIZE, S_PEEK, S_EVICT, S_CLEAR, S_SWAP, S_TOUCH_NEG, S_NOPS };
-#define ENC_KS(k, s) (1000 + (int64_t)(k) * 16 + (int64_t)(s))
-
-/* reference recency list: index 0 = most recently used, index n-1 = least recently used */
-typedef struct { uint8_t key[NKEYS]; uint8_t size[NKEYS]; int n; } Ref;
-
-static int ref_find(const Ref* r, int k) {
-  for (int j = 0; j < NKEYS; j++) if (j < r->n && r->key[j] == k) return j;
-  return -1;
-}
-static void ref_remove(Ref* r, int pos) {
-  for (int j = 0; j + 1 < NKEYS; j++) if (j >= pos && j + 1 < r->n) { r->key[j] = r->key[j + 1]; r->size[j] = r->size[j + 1]; }
-  r->n--;
-}
-static void ref_push_front(Ref* r, int k, int s) {
-  for (int j = NKEYS - 1; j > 0; j--) if (j <= r->n) { r->key[j] = r->key[j - 1]; r->size[j] = r->size[j - 1]; }
-  r->key[0] = (uint8_t)k; r->size[0] = (uint8_t)s; r->n++;
-}
-static int64_t ref_total(const Ref* r) {
-  int64_t t = 0;
-  for (int j = 0; j < NKEYS; j++) if (j < r->n) t += r->size[j];
-  return t;
-}
-
 void harness(void) {
   uint8_t op[K + 1], which[K + 1], key[K + 1], sz[K + 1];
-  int64_t out[5 * K + 1], drain[2 * (DRAIN_MAX + 1)];
+  int64_t out[5 * K + 1], drain[2 * (DRAIN_MAX + 1)] = {0};
   for (int i = 0; i < K; i++) {
     op[i] = (uint8_t)in_range(0, S_NOPS - 1);
-    which[i] = (uint8_t)((WHICH >> i) & 1); /* concrete per cell */
+    which[i] = (uint8_t)((WHICH >> i) & 1);
     key[i] = (uint8_t)in_range(0, NKEYS - 1);
     sz[i] = (uint8_t)in_range(0, 2);
   }
-  for (int i = 0; i < 2 * (DRAIN_MAX + 1); i++) drain[i] = -77;
 #ifdef NODRAIN
   int64_t rc = w_lruset_history_nodrain(op, which, key, sz, K, out);
 #else
@@ -62,54 +34,13 @@ void harness(void) {
   ASSERT(rc == 0, "no exception escapes a history; after the drain both instances are empty (size 0, count 0)");
 
   Ref r[2];
-  r[0].n = 0; r[1].n = 0;
-  for (int j = 0; j < NKEYS; j++) { r[0].key[j] = r[1].key[j] = 0; r[0].size[j] = r[1].size[j] = 0; }
+  ref_init(&r[0]); ref_init(&r[1]);
   for (int i = 0; i < K; i++) {
-    Ref* t = &r[which[i] & 1];
-    int k = key[i], s = sz[i];
-    int pos = ref_find(t, k);
-    int64_t exp = 0;
-    switch (op[i]) {
-      case S_INSERT:
-      case S_EMPLACE: /* new key: added as most recent, true; existing: size replaced, refreshed, false */
-        exp = (pos < 0);
-        if (pos >= 0) ref_remove(t, pos);
-        ref_push_front(t, k, s);
-        break;
-      case S_ERASE:
-        exp = (pos >= 0);
-        if (pos >= 0) ref_remove(t, pos);
-        break;
-      case S_TOUCH:
-      case S_TOUCH_NEG: /* negative new_size = keep the size */
-        exp = (pos >= 0);
-        if (pos >= 0) { int os = t->size[pos]; ref_remove(t, pos); ref_push_front(t, k, os); }
-        break;
-      case S_TOUCH_SIZE:
-        exp = (pos >= 0);
-        if (pos >= 0) { ref_remove(t, pos); ref_push_front(t, k, s); }
-        break;
-      case S_CHANGE_SIZE: /* LRUSet::change_size does not refresh recency */
-        exp = (pos >= 0);
-        if (pos >= 0) t->size[pos] = (uint8_t)s;
-        break;
-      case S_PEEK:
-        exp = t->n ? ENC_KS(t->key[t->n - 1], t->size[t->n - 1]) : -1;
-        break;
-      case S_EVICT:
-        exp = t->n ? ENC_KS(t->key[t->n - 1], t->size[t->n - 1]) : -1;
-        if (t->n) t->n--;
-        break;
-      case S_CLEAR:
-        t->n = 0;
-        break;
-      case S_SWAP: {
-        Ref tmp = r[0]; r[0] = r[1]; r[1] = tmp;
-        break;
-      }
-    }
+    int w = which[i] & 1;
+    int64_t exp = ref_set_step(&r[w], &r[1 - w], op[i], key[i], sz[i]);
 #ifdef NOTHROW
-    ASSUME(exp != -1);
+    ASSUME(exp != -1); /* peek/evict/at/item_size that throw out_of_range */
+    ASSUME(!((op[i] == S_TOUCH || op[i] == S_TOUCH_SIZE || op[i] == S_TOUCH_NEG || op[i] == S_CHANGE_SIZE) && exp == 0)); /* touch/change_size of a missing key throw and catch internally */
 #endif
     OBS(out[5 * i]); OBS(out[5 * i + 1]); OBS(out[5 * i + 2]); OBS(out[5 * i + 3]); OBS(out[5 * i + 4]);
     ASSERT(out[5 * i] == exp, "return value of the operation equals the reference (new/existing flag, LRU entry, out_of_range)");
